@@ -1,6 +1,6 @@
 package main
 
-// C11 — two necessary conditions on the opener-search cache of processEmphasis: EMPH-K, EMPH-S.
+// C11 — two necessary conditions on the opener-search cache of processEmphasis: EMPH-KX (c11x.go), EMPH-S.
 
 import (
 	"fmt"
@@ -48,185 +48,10 @@ func fieldOfLoad(v ssa.Value, spill *ssa.Alloc, param *ssa.Parameter) (string, b
 }
 
 func checkC11(c *Ctx) {
-	c.Rule("EMPH-K", "Cache-key completeness: for every delimiter type for which isEmphasisDelimiterMatch can return true, the result of openersBottomIndex depends (data or control dependence) on every field of the closer that the match predicate reads apart from the type itself. Otherwise a failed opener search for one closer prunes the search of a closer the predicate treats differently.")
 	c.Rule("EMPH-S", "Saved-index staleness: openersBottom holds indices into the delimiter stack. Inside processEmphasis, after a deleteDelimiterStack call whose low bound is not the value all saved bounds were last clamped to, no element of openersBottom is read before every element has been re-based (a loop storing into openersBottom).")
 	c.Assume("flanking classification, the rule-of-3 predicate itself, matching order and tree surgery (the algorithm proper) are value-level and not decided")
-	ruleEmphK(c)
+	ruleEmphKX(c)
 	ruleEmphS(c)
-}
-
-func ruleEmphK(c *Ctx) {
-	p := c.P
-	pred := p.Func("isEmphasisDelimiterMatch")
-	key := p.Method("delimiterStackElement", "openersBottomIndex")
-	if !c.NeedFunc("EMPH-K", pred, "isEmphasisDelimiterMatch") || !c.NeedFunc("EMPH-K", key, "(delimiterStackElement).openersBottomIndex") {
-		return
-	}
-	if len(pred.Params) != 2 {
-		c.Undecided("EMPH-K", "isEmphasisDelimiterMatch:signature", pred.Pos(), "expected (open, close)")
-		return
-	}
-	open, clos := pred.Params[0], pred.Params[1]
-	openSp, closSp := spillOf(open), spillOf(clos)
-	// fields of the closer the predicate reads; type constants the opener's typ is compared with
-	closeFields := map[string]bool{}
-	emphTypes := map[int64]bool{}
-	eachInstr(pred, func(in ssa.Instruction) {
-		v, ok := in.(ssa.Value)
-		if !ok {
-			return
-		}
-		if f, ok := fieldOfLoad(v, closSp, clos); ok {
-			for _, fm := range fieldMasks(v, f) {
-				// a bit the predicate requires to be set for every match need not be part of the key
-				if !maskRequiredForTrue(pred, v, fm) {
-					closeFields[fm] = true
-				}
-			}
-		}
-		if bo, ok := in.(*ssa.BinOp); ok && bo.Op == token.EQL {
-			for _, pair := range [][2]ssa.Value{{bo.X, bo.Y}, {bo.Y, bo.X}} {
-				if f, ok := fieldOfLoad(pair[0], openSp, open); ok && f == "typ" {
-					if k, ok := constInt(pair[1]); ok {
-						emphTypes[k] = true
-					}
-				}
-			}
-		}
-	})
-	delete(closeFields, "typ")
-	if len(closeFields) == 0 || len(emphTypes) == 0 {
-		c.Undecided("EMPH-K", "isEmphasisDelimiterMatch:reads", pred.Pos(), "could not derive the closer fields read / the emphasis delimiter types from the match predicate")
-		return
-	}
-	var need []string
-	for f := range closeFields {
-		need = append(need, f)
-	}
-	sort.Strings(need)
-	c.Lists["closer_fields_read_by_match_predicate"] = need
-	// key function: receiver
-	recv := key.Params[0]
-	recvSp := spillOf(recv)
-	isTyp := func(v ssa.Value) bool {
-		f, ok := fieldOfLoad(v, recvSp, recv)
-		return ok && f == "typ"
-	}
-	fieldDeps := func(v ssa.Value, acc map[string]bool) {
-		seen := map[ssa.Value]bool{}
-		var w func(v ssa.Value)
-		w = func(v ssa.Value) {
-			if v == nil || seen[v] {
-				return
-			}
-			seen[v] = true
-			if f, ok := fieldOfLoad(v, recvSp, recv); ok {
-				for _, fm := range fieldMasks(v, f) {
-					acc[fm] = true
-				}
-				return
-			}
-			switch x := v.(type) {
-			case *ssa.BinOp:
-				w(x.X)
-				w(x.Y)
-			case *ssa.UnOp:
-				w(x.X)
-			case *ssa.Convert:
-				w(x.X)
-			case *ssa.ChangeType:
-				w(x.X)
-			case *ssa.Phi:
-				for _, e := range x.Edges {
-					w(e)
-				}
-			case *ssa.Call:
-				for _, a := range x.Call.Args {
-					w(a)
-				}
-			}
-		}
-		w(v)
-	}
-	var tnames []int64
-	for t := range emphTypes {
-		tnames = append(tnames, t)
-	}
-	sort.Slice(tnames, func(i, j int) bool { return tnames[i] < tnames[j] })
-	dt := namedOf(recv.Type())
-	_ = dt
-	for _, T := range tnames {
-		tname := fmt.Sprint(T)
-		if tt := c.P.CM.Types.Scope().Lookup("inlineDelimiter"); tt != nil {
-			if n := kindConstName(c.P.CM.Types, tt.Type(), ssa.NewConst(constantInt(T), tt.Type())); n != "" {
-				tname = n
-			}
-		}
-		deps := map[string]bool{}
-		reached := 0
-		st := &evalState{e: newBSET(p), fn: key, isSym: isTyp, d: T, from: make([]int, len(key.Blocks))}
-		for i := range st.from {
-			st.from[i] = -2
-		}
-		var dfs func(b *ssa.BasicBlock, ctrl map[string]bool, depth int)
-		dfs = func(b *ssa.BasicBlock, ctrl map[string]bool, depth int) {
-			if depth > len(key.Blocks)+1 {
-				return
-			}
-			switch t := b.Instrs[len(b.Instrs)-1].(type) {
-			case *ssa.Return:
-				reached++
-				for f := range ctrl {
-					deps[f] = true
-				}
-				for _, r := range t.Results {
-					fieldDeps(r, deps)
-				}
-			case *ssa.If:
-				st.why = ""
-				v, ok := st.eval(t.Cond)
-				if ok {
-					nb := b.Succs[1]
-					if v != 0 {
-						nb = b.Succs[0]
-					}
-					st.from[nb.Index] = b.Index
-					dfs(nb, ctrl, depth+1)
-					return
-				}
-				nc := map[string]bool{}
-				for f := range ctrl {
-					nc[f] = true
-				}
-				fieldDeps(t.Cond, nc)
-				for _, s := range b.Succs {
-					st.from[s.Index] = b.Index
-					dfs(s, nc, depth+1)
-				}
-			case *ssa.Jump:
-				st.from[b.Succs[0].Index] = b.Index
-				dfs(b.Succs[0], ctrl, depth+1)
-			}
-		}
-		st.from[0] = -1
-		dfs(key.Blocks[0], map[string]bool{}, 0)
-		k := fmt.Sprintf("openersBottomIndex[%s]", tname)
-		if reached == 0 {
-			c.Viol("EMPH-K", k, key.Pos(), "no return reachable for this delimiter type (the key function panics for a type that can match)")
-			continue
-		}
-		var missing []string
-		for _, f := range need {
-			if !deps[f] {
-				missing = append(missing, f)
-			}
-		}
-		if len(missing) > 0 {
-			c.Viol("EMPH-K", k, key.Pos(), fmt.Sprintf("the search bound for this delimiter type is keyed without the closer's %s, which isEmphasisDelimiterMatch reads: a failed search for one closer bounds the search of closers the predicate treats differently", strings.Join(missing, ", ")))
-		} else {
-			c.OK("EMPH-K", k, key.Pos(), "key depends on "+strings.Join(need, ", "))
-		}
-	}
 }
 
 type emphState struct {
@@ -517,7 +342,7 @@ func init() {
 	clamp2 := "\t\t\t\tcurrentPosition--\n\t\t\t\t// Likewise after removing the opener itself.\n\t\t\t\tfor i := range openersBottom {\n\t\t\t\t\tif openersBottom[i] > currentPosition {\n\t\t\t\t\t\topenersBottom[i] = currentPosition\n\t\t\t\t\t}\n\t\t\t\t}\n"
 	addControls(
 		Control{Name: "underscore-key-constant", Props: []string{"C11"}, File: "inlines.go",
-			Old: "\t\tif elem.flags&openerFlag == 0 {\n\t\t\treturn 6 + elem.n%3\n\t\t} else {\n\t\t\treturn 9 + elem.n%3\n\t\t}", New: "\t\treturn 6", Expect: "EMPH-K/openersBottomIndex[inlineDelimiterUnderscore]"},
+			Old: "\t\tif elem.flags&openerFlag == 0 {\n\t\t\treturn 6 + elem.n%3\n\t\t} else {\n\t\t\treturn 9 + elem.n%3\n\t\t}", New: "\t\treturn 6", Expect: "EMPH-KX/openersBottomIndex:slot[inlineDelimiterUnderscore]"},
 		Control{Name: "no-rebase-after-match", Props: []string{"C11"}, File: "inlines.go",
 			Old: clamp1, New: "\t\t\tcurrentPosition = openerIndex + 1\n", Expect: "EMPH-S"},
 		Control{Name: "no-rebase-after-opener-removal", Props: []string{"C11"}, File: "inlines.go",
@@ -525,9 +350,20 @@ func init() {
 		Control{Name: "neg-rebase-with-local", Props: []string{"C11"}, File: "inlines.go", Negative: true,
 			Old: clamp2, New: "\t\t\t\tcurrentPosition--\n\t\t\t\tfor i := range openersBottom {\n\t\t\t\t\tif b := openersBottom[i]; b > currentPosition {\n\t\t\t\t\t\topenersBottom[i] = currentPosition\n\t\t\t\t\t}\n\t\t\t\t}\n"},
 		Control{Name: "star-key-ignores-opener-flag", Props: []string{"C11"}, File: "inlines.go",
-			Old: "\t\tif elem.flags&openerFlag == 0 {\n\t\t\treturn elem.n % 3\n\t\t} else {\n\t\t\treturn 3 + elem.n%3\n\t\t}\n\tcase inlineDelimiterUnderscore:", New: "\t\treturn elem.n % 3\n\tcase inlineDelimiterUnderscore:", Expect: "EMPH-K/openersBottomIndex[inlineDelimiterStar]"},
+			Old: "\t\tif elem.flags&openerFlag == 0 {\n\t\t\treturn elem.n % 3\n\t\t} else {\n\t\t\treturn 3 + elem.n%3\n\t\t}\n\tcase inlineDelimiterUnderscore:", New: "\t\treturn elem.n % 3\n\tcase inlineDelimiterUnderscore:", Expect: "EMPH-KX/openersBottomIndex:slot[inlineDelimiterStar]"},
+		Control{Name: "closer-only-star-key-ignores-length", Props: []string{"C11"}, File: "inlines.go",
+			Old: "\t\tif elem.flags&openerFlag == 0 {\n\t\t\treturn elem.n % 3\n\t\t} else {\n\t\t\treturn 3 + elem.n%3\n\t\t}\n\tcase inlineDelimiterUnderscore:", New: "\t\tif elem.flags&openerFlag == 0 {\n\t\t\treturn 0\n\t\t} else {\n\t\t\treturn 3 + elem.n%3\n\t\t}\n\tcase inlineDelimiterUnderscore:", Expect: "EMPH-KX/openersBottomIndex:slot[inlineDelimiterStar]",
+			Why: "a closer-only run is still subject to the multiple-of-3 rule when the opener can also close"},
+		Control{Name: "neg-key-finer-than-needed", Props: []string{"C11"}, File: "inlines.go", Negative: true,
+			Old: "const openersBottomCount = 14", New: "const openersBottomCount = 28",
+			Edits: [][2]string{{"\tcase inlineDelimiterLink:\n\t\treturn 12\n\tcase inlineDelimiterImage:\n\t\treturn 13", "\tcase inlineDelimiterLink:\n\t\treturn 12 + int(elem.flags&activeFlag)*14\n\tcase inlineDelimiterImage:\n\t\treturn 13"}},
+			Why: "a key that separates more than the predicate distinguishes only costs array slots"},
+		Control{Name: "neg-match-predicate-early-returns", Props: []string{"C11"}, File: "inlines.go", Negative: true,
+			Old: "\treturn (open.typ == inlineDelimiterStar || open.typ == inlineDelimiterUnderscore) &&\n\t\topen.typ == close.typ &&\n\t\topen.flags&openerFlag != 0 &&\n\t\tclose.flags&closerFlag != 0 &&",
+			New: "\tif open.typ != inlineDelimiterStar && open.typ != inlineDelimiterUnderscore || open.typ != close.typ {\n\t\treturn false\n\t}\n\tif open.flags&openerFlag == 0 || close.flags&closerFlag == 0 {\n\t\treturn false\n\t}\n\treturn true &&",
+			Why: "same predicate written with early returns"},
 		Control{Name: "star-key-ignores-length", Props: []string{"C11"}, File: "inlines.go",
-			Old: "\t\tif elem.flags&openerFlag == 0 {\n\t\t\treturn elem.n % 3\n\t\t} else {\n\t\t\treturn 3 + elem.n%3\n\t\t}\n\tcase inlineDelimiterUnderscore:", New: "\t\tif elem.flags&openerFlag == 0 {\n\t\t\treturn 0\n\t\t} else {\n\t\t\treturn 3\n\t\t}\n\tcase inlineDelimiterUnderscore:", Expect: "EMPH-K/openersBottomIndex[inlineDelimiterStar]"},
+			Old: "\t\tif elem.flags&openerFlag == 0 {\n\t\t\treturn elem.n % 3\n\t\t} else {\n\t\t\treturn 3 + elem.n%3\n\t\t}\n\tcase inlineDelimiterUnderscore:", New: "\t\tif elem.flags&openerFlag == 0 {\n\t\t\treturn 0\n\t\t} else {\n\t\t\treturn 3\n\t\t}\n\tcase inlineDelimiterUnderscore:", Expect: "EMPH-KX/openersBottomIndex:slot[inlineDelimiterStar]"},
 	)
 }
 
